@@ -698,6 +698,9 @@ impl<'a> Tr<'a> {
         if !f.panic_sites.is_empty() {
             self.panic_sites.insert(format!("call of {}", f.coq));
         }
+        if f.usize_w {
+            self.usize_w.set(true);
+        }
         let inherited = self.inherited_assoc(&f, env);
         if (!f.assoc_params.is_empty() && inherited.is_none()) || !f.const_generics.is_empty() {
             return Err(unsupported(e, &format!("effectful call of `{}`, which has const generic / associated-constant parameters", f.key)));
